@@ -60,11 +60,14 @@ pub open spec fn coincides(out: SemanticToken, token: Token, prev: Position, tex
     decode(prev, out) == pos_of(token.range.start, text) && out.length == utf16_units(token.range.start, token.range.end, text)
 }
 
+pub open spec fn symbol_kind(t: TokenType) -> bool {
+    t is LParen || t is RParen || t is LBracket || t is RBracket || t is LCurly || t is RCurly || t is Eq || t is Neq || t is Lt || t is Le
+    || t is Gt || t is Ge || t is Assign || t is Colon || t is Comma || t is Semic || t is Plus || t is Minus || t is Times || t is Divide
+}
 //@extract spl_frontend/src/tokens.rs :: impl TokenType :: fn is_symbol
 //@ ret b
 //@ sig
-        ensures b == (self is LParen || self is RParen || self is LBracket || self is RBracket || self is LCurly || self is RCurly || self is Eq || self is Neq || self is Lt || self is Le
-            || self is Gt || self is Ge || self is Assign || self is Colon || self is Comma || self is Semic || self is Plus || self is Minus || self is Times || self is Divide), //# TokenType::is_symbol::the_twenty_symbols
+        ensures b == symbol_kind(*self), //# TokenType::is_symbol::the_twenty_symbols
 //@end
 //@extract spl_frontend/src/tokens.rs :: impl TokenType :: fn is_keyword
 //@ ret b
@@ -189,6 +192,15 @@ pub open spec fn kind_of(e: Entry) -> u32 {
 }
 pub open spec fn is_local(e: Entry) -> bool { e is Parameter || e is Variable }
 pub open spec fn in_ranges(v: Seq<Range<usize>>, r: Range<usize>) -> bool { exists|i: int| 0 <= i < v.len() && v[i] == r }
+/// any other identifier: the kind of the entity it is bound to; the declaration bit exactly on the tokens that declare a
+/// parameter or local variable; an unbound identifier gets no token
+pub open spec fn ident_token_ok(token: Token, table: LookupTable, decls: Seq<Range<usize>>, r: Option<SemanticToken>) -> bool {
+    match lookup_spec(table, token.token_type->Ident_0@) {
+        Some(e) => r is Some && r->0.token_type == kind_of(e)
+            && r->0.token_modifiers_bitset == (if is_local(e) && in_ranges(decls, token.range) { 1u32 } else { 0u32 }),
+        None => r is None,
+    }
+}
 //@extract lsp4spl/src/features/semantic_tokens.rs :: fn collect_proc_dec :: closure |token|
 //@ rewrite range_eq_deref map_inline ranges_contain
 //@ lift pub fn collect_proc_dec_closure<'a>(token: &Token, name_range: &Option<Range<usize>>, local_declarations: &Vec<Range<usize>>, lookup_table: &LookupTable<'a>, text: &str, previous_token_pos: &mut Position) -> (r: Option<SemanticToken>)
@@ -200,11 +212,7 @@ pub open spec fn in_ranges(v: Seq<Range<usize>>, r: Range<usize>) -> bool { exis
         // the procedure's own name: FUNCTION with the declaration bit
         (*name_range is Some && name_range->0 == token.range) ==> r is Some && r->0.token_type == 4 && r->0.token_modifiers_bitset == 1, //# collect_proc_dec::procedure_name_is_a_declared_function
         // any other identifier: the kind of the entity it is bound to; the declaration bit exactly on the tokens that declare a parameter or local variable
-        !(*name_range is Some && name_range->0 == token.range) && token.token_type is Ident ==> (match lookup_spec(*lookup_table, token.token_type->Ident_0@) {
-            Some(e) => r is Some && r->0.token_type == kind_of(e)
-                && r->0.token_modifiers_bitset == (if is_local(e) && in_ranges(local_declarations@, token.range) { 1u32 } else { 0u32 }),
-            None => r is None,
-        }), //# collect_proc_dec::identifier_kind_by_binding_and_declaration_bit
+        !(*name_range is Some && name_range->0 == token.range) && token.token_type is Ident ==> ident_token_ok(*token, *lookup_table, local_declarations@, r), //# collect_proc_dec::identifier_kind_by_binding_and_declaration_bit
         !(*name_range is Some && name_range->0 == token.range) && !(token.token_type is Ident) ==> ((r is Some) == (class_of(token.token_type) is Some)) && (r is Some ==> r->0.token_type == class_of(token.token_type)->0 && r->0.token_modifiers_bitset == 0), //# collect_proc_dec::lexical_class_otherwise
 //@end
 
